@@ -71,7 +71,7 @@ def validate(ctx, events, name='MichSemTrace', timeout=900):
 
 def concretise_hashes(v):
     if isinstance(v, tuple):
-        if len(v) == 2 and v[0] in ('b', 's') and isinstance(v[1], tuple) and len(v[1]) == 3 and v[1][0] == '#hash':
-            return (v[0], tuple(terms.bytes_of(v)))
+        if len(v) == 3 and v[0] == 'h' and isinstance(v[1], str):
+            return ('b', tuple(terms.bytes_of(v)))
         return tuple(concretise_hashes(x) for x in v)
     return v
